@@ -151,6 +151,14 @@ class Earley:
         x = tuple(x)
         c = self._chart.get(x)
         if c is None:
+            # Compute the missing shorter prefixes first, shortest first, so that
+            # the recursion in `_compute_chart` is never more than one level deep
+            # (a cold query on a long context would exceed the recursion limit).
+            k = len(x) - 1
+            while k >= 0 and x[:k] not in self._chart:
+                k -= 1
+            for j in range(k + 1, len(x)):
+                self._chart[x[:j]] = self._compute_chart(x[:j])
             self._chart[x] = c = self._compute_chart(x)
         return c
 
